@@ -136,6 +136,31 @@ CHECKS["C19"] = dict(
          "Sequences of validation outcomes follow by iterating this step and are not enumerated here.",
     ref="DESIGN.md section 3 (C19)")
 
+CHECKS["C10"] = dict(
+    technique="symbolic evaluation of the wrapper classes with opaque networks / transforms; concrete small-tensor evaluation of the separable einsum",
+    text="PINN/HYPERPINN.eval_nn equals output_transform(inputs, net(input_transform(inputs, params)).squeeze(), params)[output_slice] with a "
+         "trailing axis, bare network parameters accepted; __call__ dispatch per equation type (scalar or length-one time, network input "
+         "[t, x]); SPINN.eval_nn on small concrete tensors equals the grid of sum_r prod_d f_d(x_d) per output slot stacked last; the "
+         "hyper-network input follows the hyperparams order and its output is split / reshaped in parameter-leaf order; shared-output "
+         "wrappers are slices of one common network. Equality with an independent numerical forward pass is not decided.",
+    ref="DESIGN.md section 3 (C10)")
+CHECKS["C16"] = dict(
+    technique="symbolic evaluation of _proceed_to_rar / trigger_rar / the step functions / init_rar on generators with symbolic state; comparator normal forms; activation-range rule",
+    text="One-step structure for ODE / stationary / non-stationary generators: step predicate (i >= start, period counter == "
+         "update_every - 1, enough inactive slots in every store), counters after a step / non-step, mask activation covering exactly "
+         "start + (J+1) * selected entries per family, trigger_rar = cond(predicate, step, no step), constructor state (mask, counter "
+         "update_every - 1, count 0) kept by init_rar. The schedule over iteration histories follows by induction from these facts and "
+         "is not mechanised (history quantifier, outside this family).",
+    ref="DESIGN.md section 3 (C16)")
+CHECKS["C17"] = dict(
+    technique="symbolic evaluation of a refinement step with formula inference of the candidates' squared residuals; store-update and selection terms compared with the specification",
+    text="Added points = gather(candidates, indices of the `selected` largest squared residuals of the current network) - argsort tail "
+         "(ODE / stationary, single and system losses) or top-k of the time-major candidate grid with row / column recovery by the grid's "
+         "own shape (non-stationary); candidates from the generator's own samplers with requested counts (real samplers exercised for dim "
+         "1 and 2); new points written at start + J * selected of the store's own family; a step requires room in every store it writes. "
+         "Interleavings with reshuffles over histories are not explored.",
+    ref="DESIGN.md section 3 (C17)")
+
 UNDER_CONSTRUCTION = "check under construction in this build round; not yet claimed"
 NA = {}
 
